@@ -15,7 +15,7 @@ func init() {
 	register(&Property{
 		ID:      "C20",
 		Run:     runC20,
-		Explain: "Information-flow analysis over all paths (SSA taint with per-function parameter→result / parameter→sink summaries iterated to a fixpoint over the module): sources are declared by type and field — types.EncryptionKey.KeyValue (hence every session key, subkey, keytab and ccache key), credentials.Credentials.password, kadmin.ChangePasswdData.NewPasswd, the password/secret parameters of the string-to-key and change-password API, and the raw file buffers of Keytab.Unmarshal and CCache.Unmarshal with everything sliced or copied from them; sinks are every error constructor, logger call, fmt print and http.Error in the module (≈480 call sites); a formatted aggregate whose static type contains a source field is a hit even without dataflow. Plus a type audit of every json/gob encoder call (walking the argument type as the encoder would, honouring json:\"-\") and the wire-field audit of every asn1.Marshal call (shared with C13). Key-derivation outputs stay tainted; ciphertexts, checksums and MACs are declassified.",
+		Explain: "Information-flow analysis over all paths (SSA taint with per-function parameter→result / parameter→sink summaries iterated to a fixpoint over the module): sources are declared by type and field — types.EncryptionKey.KeyValue (hence every session key, subkey, keytab and ccache key), credentials.Credentials.password, kadmin.ChangePasswdData.NewPasswd, the password/secret parameters of the string-to-key and change-password API, and the raw file buffers of Keytab.Unmarshal and CCache.Unmarshal with everything sliced or copied from them; sinks are every error constructor, logger call, fmt print and http.Error in the module (≈480 call sites); a formatted aggregate whose static type contains a source field is a hit even without dataflow. Plus a type audit of every json/gob encoder call (walking the argument type as the encoder would, honouring json:\"-\") and the wire-field audit of every asn1.Marshal call (shared with C13). Key-derivation outputs stay tainted; ciphertexts, checksums and MACs are declassified. Added: split taint for HTTP basic credentials — domain and user name derive only from the part of the decoded value before the first colon.",
 		NotDecided: []string{
 			"leaks through dependencies' own error texts; re-encodings performed by callers of the library",
 			"Keytab.String()/entry.String() print key bytes by design (explicit dump API, the analogue of klist -K): their bodies are exempt as sinks, formatting a Keytab/entry anywhere else is a hit",
